@@ -100,9 +100,14 @@ def faults(report, folder):
         check("content.xml cut at tag boundary %d" % cut)
     odslib.write_ods(path, content)
     check("missing sheet 2 of 1", sheet=2)
+    # (the attribute sits on the first cell of the first row: a cell with text, an empty cell, an empty cell in front of others)
+    empty_first = odslib.plain_sheet([["", "b"], ["c", "d"]])
+    only_empty = odslib.plain_sheet([[""], ["c"]])
+    for value in ("0", "00", "-1", "x", "", "1.5", "\u00b2"):  # (" 2" is a valid xs:positiveInteger: white space collapses)
+        for label, sheet_rows in (("a cell with text", good), ("an empty cell", empty_first), ("the only, empty cell of its row", only_empty)):
+            odslib.write_ods(path, odslib.content_xml([sheet_rows], column_attribute=value))
+            check("table:number-columns-repeated=%r on %s" % (value, label))
     for value in ("0", "-1", "x", ""):
-        odslib.write_ods(path, odslib.content_xml([good], column_attribute=value))
-        check("table:number-columns-repeated=%r" % value)
         odslib.write_ods(path, odslib.content_xml([good], row_attribute=value))
         check("table:number-rows-repeated=%r" % value, signature="row-repeats-invalid")
     odslib.write_ods(path, content)
